@@ -289,7 +289,9 @@ def sec_resample(ck, T):
                 A_ = A_.astype(np.int64)      # integer-typed matrix, b stays float (possibly fractional)
             frac_lost = bool(intA and np.any(b_ != np.trunc(b_)))
             mapping = (A_, b_)
-            cmap = "(MapTuple %s %s %d)" % (cqm(A_), cqv(b_), 0 if intA else 1)
+            if intA and not frac_lost and rng.random() < 0.5:
+                b_ = b_.astype(np.int64)
+            cmap = "(MapTuple %s %s %d %d)" % (cqm(A_), cqv(b_), DT[A_.dtype], DT[b_.dtype])
         elif form == "matrix":
             mapping = Tw.copy()
             cmap = "(MapMatrix %s 1)" % cqm(Tw)
@@ -758,7 +760,6 @@ def sec_volumeimg(ck, T):
         Sinv = np.linalg.inv(S)
         Tm = np.eye(4) if np.all(G == S) else np.dot(Sinv, G)
         A = Tm[:3, :3]
-        Ainv = np.linalg.inv(A)
         isdiag = bool(np.all(np.diag(np.diag(A)) == A))
         rep = {"entry": "VolumeImg.as_volume_img", "self_affine": S.tolist(), "target_affine": G.tolist(), "voxel_map": N.tolist(),
                "shape": sshape, "target_shape": tshape, "interpolation": interp, "data": data.tolist()}
@@ -768,9 +769,9 @@ def sec_volumeimg(ck, T):
             ck.fail("as_volume_img/sampler-calls", "expected exactly one affine_transform call", rep)
             continue
         _, M, off, kw = log[0]
-        if exact_inverse(S, Sinv) and exact_inverse(A, Ainv):
-            T.add("avi_agrees %s %s %s %s %s %s %s %s" % (cqm(S), cqm(G), cqm(Sinv), cqm(Ainv), cbool(M.ndim == 1),
-                                                       cqm(M) if M.ndim == 2 else "[]", cqv(M) if M.ndim == 1 else "[]", cqv(off)),
+        if exact_inverse(S, Sinv):
+            T.add("avi_agrees %s %s %s %s %s %s %s && inv_check 3 %s %s" % (cqm(S), cqm(G), cqm(Sinv), cbool(M.ndim == 1),
+                                                       cqm(M) if M.ndim == 2 else "[]", cqv(M) if M.ndim == 1 else "[]", cqv(off), cqm(S), cqm(Sinv)),
                   "model-vs-impl/as_volume_img", "matrix/offset handed to ndimage.affine_transform differs from the model", rep)
             nex += 1
         if kw.get("order") != (0 if interp == "nearest" else 3) or tuple(kw.get("output_shape")) != tshape:
@@ -828,7 +829,7 @@ def sec_volumeimg(ck, T):
         for wax in range(3):
             vax = int(np.argmax(np.abs(A[wax])))
             p = A[wax, vax]
-            T.add("xyz_agrees %d %s %s %s %s %s %s" % (wax, cqc(p), cqc(b[wax]), cqc(sshape[vax] - 1), cqc(R[wax, wax]), cqc(R[wax, 3]), cbool(p < 0)),
+            T.add("xyz_agrees %s %s %s %s %s %s" % (cqc(p), cqc(b[wax]), cqc(sshape[vax] - 1), cqc(R[wax, wax]), cqc(R[wax, 3]), cbool(p < 0)),
                   "model-vs-impl/xyz_ordered", "pixdim/offset after xyz_ordered differ from the model", dict(rep, world_axis=wax, result_affine=R.tolist()))
         # property: every stored value keeps its world position
         rd = np.asarray(res.get_fdata())
@@ -852,6 +853,98 @@ def sec_volumeimg(ck, T):
         if not np.array_equal(np.asarray(sw.get_fdata()), np.swapaxes(data, a1, a2)):
             ck.fail("_swapaxes/data", "data after _swapaxes is not the axis-swapped array", rep)
     ck.section("xyz_ordered", cases=nxyz)
+
+
+def lookup_nd(data, N, tshape, cval=0.0):
+    """like lookup, for data with extra (non-spatial) trailing axes"""
+    idx = np.indices(tshape).reshape(3, -1)
+    src = (N[:3, :3] @ idx + N[:3, 3:]).round().astype(int)
+    inb = np.all((src >= 0) & (src < np.array(data.shape[:3])[:, None]), axis=0)
+    out = np.full((idx.shape[1],) + data.shape[3:], float(cval))
+    out[inb] = data[tuple(src[:, inb])]
+    return out.reshape(tuple(tshape) + data.shape[3:]), inb.reshape(tshape)
+
+
+def sec_volumes_more(ck):
+    """values_in_world / as_volume_img / resampled_to_img across VolumeImg and VolumeGrid (generic Transform with
+    mapping + inverse_mapping), 3-D and 4-D data, composed_with_transform: grid-to-grid lookups."""
+    from nipy.labs.datasets.volumes.volume_img import VolumeImg
+    from nipy.labs.datasets.volumes.volume_grid import VolumeGrid
+    from nipy.labs.datasets.transforms.transform import Transform, CompositionError
+    from nipy.labs.datasets.transforms.affine_transform import AffineTransform as LabsAffine
+    from nipy.labs.datasets.transforms.affine_utils import apply_affine
+    rng = ck.rng("volumes-more")
+    ncase = ck.n(120, 1000)
+
+    def as_transform(M, name_in="voxels"):
+        Mi = np.linalg.inv(M)
+        return Transform(name_in, "world", mapping=lambda x, y, z, M=M: apply_affine(x, y, z, M),
+                         inverse_mapping=lambda x, y, z, Mi=Mi: apply_affine(x, y, z, Mi))
+    for it in range(ncase):
+        sshape = tuple(int(v) for v in rng.integers(3, 6, 3))
+        extra = (2,) if it % 3 == 2 else ()
+        data = rng.integers(-9, 10, sshape + extra).astype(float)
+        S = rand_aff_exact(rng, 3, shear=0.1) if it >= 4 else np.eye(4)
+        N = rand_voxmap(rng, 3, 3, sshape)
+        G = tofloat(fmm(fmat(S), fmat(N)))
+        tshape = tuple(int(v) for v in rng.integers(2, 5, 3))
+        interp = "nearest" if rng.random() < 0.5 else "continuous"
+        tol = 0.0 if interp == "nearest" else 1e-9
+        exp, inb = lookup_nd(data, N, tshape)
+        rep = {"self_affine": S.tolist(), "target_affine": G.tolist(), "voxel_map": N.tolist(), "shape": list(sshape + extra),
+               "target_shape": tshape, "interpolation": interp, "data": data.tolist()}
+        ck.count(("volmore", S.tobytes(), G.tobytes(), interp, extra), bucket="volumes:%dD-data:%s" % (3 + len(extra), interp))
+        img = VolumeImg(data, S, "world", interpolation=interp)
+        grid = VolumeGrid(data, as_transform(S), interpolation=interp)
+        tgt_img = VolumeImg(np.zeros(tshape), G, "world")
+        tgt_grid = VolumeGrid(np.zeros(tshape), as_transform(G))
+        calls = {
+            "VolumeImg.resampled_to_img(VolumeImg)": lambda: img.resampled_to_img(tgt_img),
+            "VolumeImg.resampled_to_img(VolumeGrid)": lambda: img.resampled_to_img(tgt_grid),
+            "VolumeGrid.resampled_to_img(VolumeImg)": lambda: grid.resampled_to_img(tgt_img),
+            "VolumeGrid.resampled_to_img(VolumeGrid)": lambda: grid.resampled_to_img(tgt_grid),
+            "VolumeGrid.as_volume_img": lambda: grid.as_volume_img(affine=G, shape=tshape),
+            "VolumeImg.as_volume_img": lambda: img.as_volume_img(affine=G, shape=tshape),
+        }
+        for name, fn in calls.items():
+            r = guarded(ck, "grid-to-grid/%s" % name, dict(rep, entry=name), fn)
+            if r is None:
+                continue
+            out = np.asarray(r.get_fdata())
+            if out.shape != exp.shape or not close(out, exp, tol):
+                ck.fail("grid-to-grid/%s/%s" % (name, "4D-data" if extra else "3D-data"),
+                        "%s (interpolation %s): resampled data differs from the looked-up source values" % (name, interp),
+                        dict(rep, entry=name, got=out.tolist(), expected=exp.tolist()))
+            if hasattr(r, "affine") and not np.array_equal(r.affine, G):
+                ck.fail("output-affine/%s" % name, "%s: result does not carry the target affine" % name, dict(rep, entry=name))
+            if r.world_space != "world":
+                ck.fail("output-world-space/%s" % name, "%s: result world space changed" % name, dict(rep, entry=name))
+        # values_in_world at lattice world positions, array-shaped input, both classes
+        vox = np.stack([rng.integers(0, sshape[k], (2, 3)) for k in range(3)]).astype(float)
+        w = np.einsum("ij,j...->i...", S[:3, :3], vox) + S[:3, 3][:, None, None]
+        want = data[tuple(vox.astype(int))]
+        for name, obj in (("VolumeImg.values_in_world", img), ("VolumeGrid.values_in_world", grid)):
+            vals = guarded(ck, "grid-to-grid/%s" % name, dict(rep, entry=name), lambda: obj.values_in_world(w[0], w[1], w[2]))
+            if vals is not None and (np.shape(vals) != want.shape or not close(vals, want, tol)):
+                ck.fail("grid-to-grid/%s/%s" % (name, "4D-data" if extra else "3D-data"),
+                        "%s at the world positions of voxels differs from the stored values" % name,
+                        dict(rep, entry=name, world_points=w.tolist()))
+        # composed_with_transform: same data, world positions mapped by W
+        W = rand_aff_exact(rng, 3, shear=0.1)
+        moved = guarded(ck, "composed_with_transform", rep, lambda: img.composed_with_transform(LabsAffine("world", "w2", W)))
+        if moved is not None:
+            w2 = np.einsum("ij,j...->i...", W[:3, :3], w) + W[:3, 3][:, None, None]
+            vals = guarded(ck, "composed_with_transform/values_in_world", rep, lambda: moved.values_in_world(w2[0], w2[1], w2[2]))
+            if moved.world_space != "w2" or vals is None or not close(vals, want, tol):
+                ck.fail("composed_with_transform/values-move", "VolumeImg.composed_with_transform(W): value at W(world position) differs from the stored value",
+                        dict(rep, world_transform=W.tolist()))
+        if it % 10 == 0:
+            try:
+                img.resampled_to_img(VolumeImg(np.zeros(tshape), G, "elsewhere"))
+                ck.fail("resampled_to_img/world-space-not-checked", "resampling onto an image of another world space did not raise", rep)
+            except CompositionError:
+                pass
+    ck.section("volumes_more", cases=ncase)
 
 
 # ================================================================== Realign4d
@@ -895,7 +988,53 @@ def sec_realign(ck, T):
         if not close(res, data, 1e-8):
             ck.fail("realign4d/identity-does-not-reproduce-input", "resample4d with identity transforms and no time interpolation changes the data (max %.3g)"
                     % np.max(np.abs(res - data)), {"shape": shape, "affine": aff.tolist()})
-    ck.section("realign4d", scanner_cases=ncase, identity_runs=nid)
+    # Realign4dAlgorithm.resample(t) on the working grid: identity transforms reproduce the input at the grid points;
+    # a world translation by an integer number of voxels looks the shifted voxel up (interior points)
+    nra = ck.n(6, 30)
+    for it in range(nra):
+        shape = tuple(int(s) for s in rng.integers(6, 9, 3)) + (3,)
+        data = rng.normal(size=shape)
+        aff = hom(np.diag(rng.uniform(1.0, 3.0, 3)) * np.array(rng.choice([-1, 1], 3)), rng.normal(size=3) * 5)
+        sub = tuple(int(v) for v in rng.integers(1, 3, 3))
+        for time_interp in (False, True):
+            ck.count(("realign-resample", it, time_interp), bucket="realign4d:resample-identity")
+            rep = {"shape": shape, "affine": aff.tolist(), "subsampling": sub, "time_interp": time_interp}
+
+            def run_id():
+                im4d = gr.Image4d(data, aff, tr=2.0, slice_times=0, slice_info=(2, 1))
+                r = gr.Realign4dAlgorithm(im4d, time_interp=time_interp, subsampling=sub)
+                for t in range(shape[3]):
+                    r.resample(t)
+                return r
+            r = guarded(ck, "realign4d/resample-identity", rep, run_id)
+            if r is None:
+                continue
+            x, y, z = r.xyz[:, 0], r.xyz[:, 1], r.xyz[:, 2]
+            want = data[x, y, z, :]
+            if not close(r.data, want, 1e-8):
+                ck.fail("realign4d/resample-identity-does-not-reproduce-input/%s" % ("time-interp" if time_interp else "no-time-interp"),
+                        "Realign4dAlgorithm.resample with identity transforms differs from the input at the grid points (max %.3g)" % np.max(np.abs(r.data - want)), rep)
+        # integer voxel shift along x given as a world translation
+        shift = np.array([1, 0, 0])
+        tw = aff[:3, :3] @ shift
+        vec = np.zeros(12)
+        vec[:3] = tw
+
+        def run_shift():
+            im4d = gr.Image4d(data, aff, tr=2.0, slice_times=0, slice_info=(2, 1))
+            r = gr.Realign4dAlgorithm(im4d, time_interp=False, transforms=[Rigid(vec) for _ in range(shape[3])], borders=(2, 2, 2))
+            for t in range(shape[3]):
+                r.resample(t)
+            return r
+        rep = {"shape": shape, "affine": aff.tolist(), "world_translation": tw.tolist()}
+        r = guarded(ck, "realign4d/resample-voxel-shift", rep, run_shift)
+        ck.count(("realign-shift", it), bucket="realign4d:resample-voxel-shift")
+        if r is not None:
+            x, y, z = r.xyz[:, 0] + 1, r.xyz[:, 1], r.xyz[:, 2]
+            if not close(r.data, data[x, y, z, :], 1e-7):
+                ck.fail("realign4d/resample-voxel-shift", "Realign4dAlgorithm.resample with a one-voxel world translation does not look the shifted voxel up "
+                        "(max %.3g)" % np.max(np.abs(r.data - data[x, y, z, :])), rep)
+    ck.section("realign4d", scanner_cases=ncase, identity_runs=nid, algorithm_resample_runs=nra)
 
 
 def run(ck):
@@ -925,6 +1064,7 @@ def run(ck):
     timed("interpolator", sec_interpolator, ck, T)
     timed("registration", sec_registration, ck, T)
     timed("volumeimg", sec_volumeimg, ck, T)
+    timed("volumes_more", sec_volumes_more, ck)
     timed("realign4d", sec_realign, ck, T)
     timed("linear_field", sec_linear, ck)
     t0 = time.time()
